@@ -25,6 +25,7 @@ func genWritePath(c *fw.Ctx, r *rng.R, root *model.Node) string {
 	if r.Chance(1, 10) {
 		length = r.Range(6, 45)
 	}
+	bigGap := false
 	for s := 0; s < length; s++ {
 		last := s == length-1
 		var child model.Val
@@ -48,6 +49,12 @@ func genWritePath(c *fw.Ctx, r *rng.R, root *model.Node) string {
 				idx = n + 1
 			default:
 				idx = n + r.Range(0, 6)
+			}
+			if !bigGap && r.Chance(1, 50) {
+				// now and then the padding is long: block sizes and their neighbours
+				bigGap = true
+				idx = n + []int{15, 16, 17, 31, 32, 33, 63, 64, 65, 127, 128, 129, 255, 256, 257, 511, 512, 513, 1023, 1024, 1025, 2047, 2048, 2049, 4096}[r.Intn(25)]
+				c.Count("writes_with_long_padding")
 			}
 			if cur != nil && idx < n {
 				child, childExists = cur.E[idx], true
